@@ -10,7 +10,24 @@ import numpy as np
 from npstructures.raggedshape import ViewBase
 
 
+def warm_up():
+    """the property is about SWITCHING the width: the library is first used under the other configuration (construction, row and
+    column selection incl. bounds beyond 2**31, assignment, ufuncs, reductions), then switched -- anything computed once and
+    remembered for the first configuration would show"""
+    from npstructures import RaggedArray
+    ra = RaggedArray([[1, 2, 3], [], [4, 5]])
+    for idx in (slice(1, None), [0, 2], (slice(None), slice(1, 2 ** 40)), (slice(None), slice(None, None, -1)), (0, 1),
+                (slice(None), slice(2 ** 31, None, -(2 ** 33)))):
+        try:
+            ra[idx]
+        except Exception:
+            pass
+    ra[0, 0] = 7
+    (ra + 1).sum(axis=-1); ra.sum(axis=0); np.cumsum(ra, axis=-1); ra.sort(axis=-1); np.concatenate([ra, ra]); ra.nonzero()
+
+
 def main():
+    warm_up()                       # under the default 64-bit indices
     ViewBase.set_dtype(np.int32)
     cases = json.load(open(sys.argv[1]))
     mods = {}
